@@ -1,0 +1,94 @@
+//go:build verif
+
+// Contracts for the gowp verifier (/verif). Comment-only; compiled only with -tags verif.
+package rueidisprob
+
+// ---------------------------------------------------------------------------------------------
+// C35 — the Go side of "no false negatives": every accepted configuration has at least one hash function and a
+// non-empty bit array; the bit positions of a key are a function of (key, size, hash count) alone — the same for
+// Add and for Exists, whatever else is in the batch; Add reports the server's verdict; Exists answers per key in
+// order. The Lua scripts (setting / testing the bits atomically) are assumed.
+
+//@ func index
+//@   pure
+//@   requires maxSize > 0
+//@   safety C35
+//@   ensures [C35 position-is-inside-the-bit-array] result < maxSize
+
+//@ func hash
+//@   ensures [C35 hash-is-a-function-of-the-key-bytes] result0 == mh1(string(data)) && result1 == mh2(string(data))
+
+//@ specfn want(key string, b int, size uint64) string = strconv.FormatUint(index(mh1(key), mh2(key), uint(b), size), 10)
+
+// cell(a, b): a trigger for quantifiers over (key number, hash number); true everywhere
+//@ specfn cell(a int, b int) bool
+//@ axiom [cell-is-true] forall a int, b int :: {cell(a, b)} cell(a, b)
+
+// mulk(a, k) = a * k, kept opaque so that the one nonlinear fact the proofs need (blocks of k positions do not
+// overlap) is a separately proved lemma instead of something every query has to rediscover: outside the lemma proofs
+// only the three lemmas below are known about it
+//@ specfn abstract mulk(a int, k int) int = a * k
+//@ lemma [C35 no-blocks-no-positions use] forall a int, k int :: {mulk(a, k)} a == 0 ==> mulk(a, k) == 0
+//@ lemma [C35 one-more-block use] forall a int, d int, k int :: {mulk(a, k), mulk(d, k)} d == a + 1 ==> mulk(d, k) == mulk(a, k) + k
+//@ lemma [C35 blocks-do-not-overlap use] forall a int, d int, k int :: {mulk(a, k), mulk(d, k)} (0 <= a && a < d && k >= 0) ==> mulk(a, k) + k <= mulk(d, k)
+
+//@ func numberOfBloomFilterHashFunctions
+//@   requires s >= 1
+//@   ensures [C35 at-least-one-hash-function] result >= 1
+
+//@ func NewBloomFilter
+//@   modifies *
+//@   ensures [C35 accepted-configuration-is-usable] result1 == nil ==> (typeis(result0, *bloomFilter) && ptrof(result0, *bloomFilter).hashIterations >= 1 && ptrof(result0, *bloomFilter).size >= 1 && ptrof(result0, *bloomFilter).size <= 4294967296 && ptrof(result0, *bloomFilter).hashIterationString == strconv.FormatUint(uint64(ptrof(result0, *bloomFilter).hashIterations), 10))
+
+//@ func bloomFilter.indexes
+//@   requires c.hashIterations >= 1 && c.hashIterations <= 4294967296 && c.size >= 1 && buf != nil
+//@   requires len(keys) * c.hashIterations <= 1099511627776
+//@   safety C35
+//@   modifies *buf, (*buf)[*]
+//@   ensures [C35 one-block-of-positions-per-key] len(result) == mulk(len(keys), c.hashIterations)
+//@   ensures [C35 positions-depend-on-the-key-alone] forall a int, b int :: {cell(a, b)} (cell(a, b) && 0 <= a && a < len(keys) && 0 <= b && b < c.hashIterations) ==> result[mulk(a, c.hashIterations) + b] == want(keys[a], b, uint64(c.size))
+//@   loop 0: invariant [C35] rangeindex >= -1 && rangeindex < len(keys) && len(allIndexes) == mulk(rangeindex + 1, c.hashIterations)
+//@   loop 0: invariant [C35] forall a int, b int :: {cell(a, b)} (cell(a, b) && 0 <= a && a <= rangeindex && 0 <= b && b < c.hashIterations) ==> allIndexes[mulk(a, c.hashIterations) + b] == want(keys[a], b, uint64(c.size))
+//@   loop 1: invariant [C35] 0 <= i && i <= c.hashIterations && len(allIndexes) == mulk(rangeindex + 1, c.hashIterations) + i && rangeindex + 1 < len(keys) && rangeindex >= -1
+//@   loop 1: invariant [C35] forall a int, b int :: {cell(a, b)} (cell(a, b) && ((0 <= a && a <= rangeindex && 0 <= b && b < c.hashIterations) || (a == rangeindex + 1 && 0 <= b && b < i))) ==> allIndexes[mulk(a, c.hashIterations) + b] == want(keys[a], b, uint64(c.size))
+
+// the byte-buffer pool (internal/util.Pool over sync.Pool) as seen from this package: Get hands out a container
+// with the requested length and at least the requested capacity; Put only resets that container. Assumed.
+//@ external (*github.com/redis/rueidis/internal/util.Pool[*github.com/redis/rueidis/rueidisprob.bytesContainer]).Get[*github.com/redis/rueidis/rueidisprob.bytesContainer]
+//@   ensures result != nil && len(result.s) == length && cap(result.s) >= capacity
+//@ external (*github.com/redis/rueidis/internal/util.Pool[*github.com/redis/rueidis/rueidisprob.bytesContainer]).Put[*github.com/redis/rueidis/rueidisprob.bytesContainer]
+//@   modifies *s, s.s[*]
+
+// what the add script is given: the hash count, then for key number a its k positions, in order
+//@ func bloomFilter.AddMulti
+//@   requires c.hashIterations >= 1 && c.hashIterations <= 4294967296 && c.size >= 1
+//@   requires len(keys) * c.hashIterations <= 1099511627776
+//@   modifies *
+//@   assert [C35 add-sends-the-positions-of-its-keys] at Exec: arg0 == c.addMultiScript && len(arg4) == 1 + mulk(len(keys), c.hashIterations) && arg4[0] == c.hashIterationString && (forall a int, b int :: {cell(a, b)} (cell(a, b) && 0 <= a && a < len(keys) && 0 <= b && b < c.hashIterations) ==> arg4[1 + mulk(a, c.hashIterations) + b] == want(keys[a], b, uint64(c.size)))
+//@   ensures [C35 add-reports-the-servers-verdict where-defined] (result == nil) <==> !failed(resp)
+
+// what the exists script is given (the same positions as the add script got for the same key), and how its answer
+// is decoded: one answer per key, in key order
+//@ func bloomFilter.ExistsMulti
+//@   requires c.hashIterations >= 1 && c.hashIterations <= 4294967296 && c.size >= 1
+//@   requires len(keys) * c.hashIterations <= 1099511627776
+//@   modifies *
+//@   assert [C35 exists-sends-the-positions-of-its-keys] at Exec: arg0 == c.existsMultiScript && len(arg4) == 1 + mulk(len(keys), c.hashIterations) && arg4[0] == c.hashIterationString && (forall a int, b int :: {cell(a, b)} (cell(a, b) && 0 <= a && a < len(keys) && 0 <= b && b < c.hashIterations) ==> arg4[1 + mulk(a, c.hashIterations) + b] == want(keys[a], b, uint64(c.size)))
+//@   ensures [C35 one-answer-per-key-in-order where-defined] (result1 == nil && len(keys) > 0) ==> (len(result0) == len(keys) && (forall j int :: (0 <= j && j < len(arr) && j < len(keys)) ==> scriptbool(arr[j], result0[j])))
+//@   ensures [C35 server-error-is-reported where-defined] failed(resp) ==> result1 != nil
+//@   ensures [C35 as-many-answers-as-keys] (result1 == nil && len(keys) > 0) ==> len(result0) == len(keys)
+//@   loop 0: invariant [C35] rangeindex >= -1 && len(result) == len(keys) && (forall j int :: (0 <= j && j <= rangeindex && j < len(keys)) ==> scriptbool(arr[j], result[j]))
+
+// the single-item forms delegate: one key in, that key's verdict out
+//@ func bloomFilter.Add
+//@   requires c.hashIterations >= 1 && c.hashIterations <= 4294967296 && c.size >= 1
+//@   modifies *
+//@   assert [C35 add-delegates-its-key] at AddMulti: arg0 == c && len(arg2) == 1 && arg2[0] == key
+//@   ensures [C35 add-returns-the-batch-verdict where-defined] result == returned(AddMulti)
+
+//@ func bloomFilter.Exists
+//@   requires c.hashIterations >= 1 && c.hashIterations <= 4294967296 && c.size >= 1
+//@   modifies *
+//@   safety C35
+//@   assert [C35 exists-delegates-its-key] at ExistsMulti: arg0 == c && len(arg2) == 1 && arg2[0] == key
+//@   ensures [C35 exists-returns-the-first-answer where-defined] (second(returned(ExistsMulti)) == nil ==> (result1 == nil && result0 == first(returned(ExistsMulti))[0])) && (second(returned(ExistsMulti)) != nil ==> (result1 == second(returned(ExistsMulti)) && !result0))
